@@ -22,7 +22,7 @@ def run_tree_case(ctx):
     ctx.cls("tree", "T:tree-purification")
     model = None
     for _ in range(30):
-        m, desc = c10.holstein(ctx, max_dim=48)
+        m, desc = c10.holstein(ctx, max_dim=48, allow_complex_j=False)     # (TTNO documents: complex operators not supported yet)
         if m.scheme < 4 and len(m.basis) >= 2:
             model = m
             break
@@ -121,7 +121,10 @@ def run_tree_case(ctx):
         if N >= 4 and x >= 0.02:
             ctx.nontrivial(("tree-T", desc, trees.tree_shape_key(tree), round(beta, 4), N, scheme))
     ns = sorted(errs)
-    if errs[ns[0]] > 1e-6 and errs[ns[1]] > 1e-8:
+    # (the ratio is only a statement about the leading error term: for the two-site scheme, whose padded bond bases make the
+    # error rough at the 1e-5 level - see C12 - it is measured where that term dominates)
+    floor = 1e-4 if scheme == "tdvp_ps2" else 1e-6
+    if errs[ns[0]] > floor and errs[ns[1]] > 1e-8:
         ctx.count("ratios_measured")
         ratio = 0.6 if scheme == "prop_and_compress_tdrk4" else 0.85
         ctx.check(errs[ns[1]] <= ratio * errs[ns[0]], f"tree|thermal|{scheme}|error-does-not-decrease-with-N", errs=errs)
